@@ -1653,6 +1653,149 @@ func c06cSuite(r *Result, rng *rand.Rand, rounds int) {
 	}
 }
 
+
+// ======================================================================================================
+// suite "preconds" (tie): the handle's Preloads[name] after ONE chain derived from it ran its preload, vs
+// Model/PreloadConds.lean argsAfter under the regenerated discipline (c06.preconds)
+// ======================================================================================================
+
+type c06qCase struct {
+	Args  []c06pArg `json:"args"`
+	Spare int       `json:"spare"`
+	Assoc []c06pArg `json:"assoc"`
+	Fin   int       `json:"fin"`
+}
+
+func c06qAtoms(vals []interface{}, base int) []int {
+	out := make([]int, len(vals))
+	for i, v := range vals {
+		if _, ok := v.(func(*gorm.DB) *gorm.DB); ok {
+			out[i] = 0
+		} else {
+			out[i] = base + 2*i + 1
+		}
+	}
+	return out
+}
+
+func c06qReal(w *c06aWorld, c c06qCase) (before, after []int, note string) {
+	defer func() {
+		if p := recover(); p != nil {
+			note = "panic:" + c06HexRe.ReplaceAllString(fmt.Sprint(p), "PTR")
+		}
+	}()
+	args := c06pArgs(c.Args, c.Spare)
+	orig := append([]interface{}(nil), args...)
+	atoms := c06qAtoms(orig, 0)
+	root := c06zOpen(w, 0, false)
+	t := root.Model(&C06AUser{}).Preload("Pets", args...)
+	if len(c.Assoc) > 0 {
+		t = t.Preload(clause.Associations, c06pArgs(c.Assoc, 0)...)
+	}
+	h := t.Session(&gorm.Session{})
+	ids := func() []int {
+		var out []int
+		for _, v := range h.Statement.Preloads["Pets"] {
+			if _, ok := v.(func(*gorm.DB) *gorm.DB); ok {
+				out = append(out, 0)
+				continue
+			}
+			id := -1
+			for i, o := range orig {
+				if atoms[i] != 0 && fmt.Sprintf("%T:%v", o, o) == fmt.Sprintf("%T:%v", v, v) {
+					id = atoms[i]
+					break
+				}
+			}
+			out = append(out, id)
+		}
+		return out
+	}
+	before = ids()
+	var us []C06AUser
+	var u C06AUser
+	var err error
+	switch c.Fin % 3 {
+	case 0:
+		err = h.Find(&us).Error
+	case 1:
+		err = h.First(&u).Error
+	default:
+		err = h.Where("id > ?", 1).Order("id").Find(&us).Error
+	}
+	after = ids()
+	return before, after, c06aErr(err)
+}
+
+func c06qSuite(r *Result, rng *rand.Rand, rounds int) {
+	w := c06aOpenWorld()
+	defer w.close()
+	var cases []c06qCase
+	var ops [][]interface{}
+	var reals [][]int
+	for i := 0; i < rounds; i++ {
+		c := c06qCase{Args: c06pGenArgs(rng), Fin: rng.Intn(3)}
+		if rng.Intn(3) == 0 {
+			c.Spare = 1 + rng.Intn(3)
+		}
+		if rng.Intn(3) == 0 {
+			c.Assoc = c06pGenArgs(rng)
+		}
+		before, after, note := c06qReal(w, c)
+		if strings.HasPrefix(note, "panic:") {
+			r.H("preconds_note", "panic")
+			continue
+		}
+		atoms := c06qAtoms(c06pArgs(c.Args, 0), 0)
+		assoc := c06qAtoms(c06pArgs(c.Assoc, 0), 1000)
+		if fmt.Sprint(before) != fmt.Sprint(atoms) && len(atoms) > 0 {
+			r.Violate(Violation{Kind: "correspondence", Suite: "preconds", Input: c, Observed: before, Expected: atoms, Note: "harness: the handle's Preloads[Pets] is not what Preload was given"})
+			return
+		}
+		cases = append(cases, c)
+		reals = append(reals, after)
+		ops = append(ops, []interface{}{"c06.preconds", atoms, c.Spare, assoc})
+		fnFirst, sawFn := false, false
+		for _, a := range c.Args {
+			if strings.HasPrefix(a.K, "fn") {
+				sawFn = true
+			} else if sawFn {
+				fnFirst = true
+			}
+		}
+		r.H("preconds_shape", fmt.Sprintf("fnBeforeCond=%v spare=%v assoc=%v err=%v", fnFirst, c.Spare > 0, len(c.Assoc) > 0, note != ""))
+	}
+	if len(ops) == 0 {
+		return
+	}
+	ans, err := AskLean(ops)
+	if err != nil {
+		r.Violate(Violation{Kind: "correspondence", Suite: "preconds", Input: "batch", Observed: err.Error(), Expected: "answers"})
+		return
+	}
+	for i, a := range ans {
+		var m struct {
+			After      []int `json:"after"`
+			Writes     int   `json:"writes"`
+			PrefixInit bool  `json:"prefixInit"`
+		}
+		if err := json.Unmarshal(a, &m); err != nil {
+			r.Violate(Violation{Kind: "correspondence", Suite: "preconds", Input: cases[i], Observed: string(a), Expected: "an object"})
+			return
+		}
+		r.CorrCompared++
+		r.Case("preconds", canon(cases[i]), len(cases[i].Args) >= 2)
+		if len(reals[i]) == 0 && len(m.After) == 0 {
+			continue
+		}
+		if fmt.Sprint(m.After) != fmt.Sprint(reals[i]) {
+			r.Violate(Violation{Kind: "correspondence", Suite: "preconds", Input: cases[i], Observed: reals[i], Expected: m.After,
+				Note: fmt.Sprintf("the handle's Statement.Preloads[\"Pets\"] after one derived chain ran its preload (0 = scope function, odd = argument by position) differs from Model/PreloadConds.lean argsAfter (regenerated discipline prefixInit=%v)", m.PrefixInit)})
+			return
+		}
+	}
+}
+
 // ======================================================================================================
 
 func init() {
@@ -1666,6 +1809,7 @@ func init() {
 		c06pSuite(r, rng, pre)
 		c06mSuite(r, rng, mid)
 		c06cSuite(r, rng, cache)
+		c06qSuite(r, rng, pre/2)
 	})
 	replayers["C06/pre"] = func(r *Result, input json.RawMessage) {
 		var h c06pHist
@@ -1680,6 +1824,19 @@ func init() {
 		}
 	}
 	replayers["C06/pretie"] = replayers["C06/pre"]
+	replayers["C06/preconds"] = func(r *Result, input json.RawMessage) {
+		var c c06qCase
+		if err := json.Unmarshal(input, &c); err != nil {
+			return
+		}
+		w := c06aOpenWorld()
+		defer w.close()
+		before, after, note := c06qReal(w, c)
+		if fmt.Sprint(before) != fmt.Sprint(after) {
+			r.Violate(Violation{Kind: "e2e", Suite: "preconds", Input: c, Observed: after, Expected: before,
+				Note: "executing ONE chain derived from a handle changed the handle's Preload arguments (0 = scope function, odd = argument by position) " + note})
+		}
+	}
 	replayers["C06/mid"] = func(r *Result, input json.RawMessage) {
 		var h c06mHist
 		if err := json.Unmarshal(input, &h); err != nil {
